@@ -15,7 +15,7 @@ def gen_case(rng, kind=None, focus=None):
     kind = kind or rng.choice(KINDS)
     v1 = kind.startswith("pair1")
     raw = kind.endswith("_raw")
-    focus = focus or rng.choice(["mixed", "mixed", "out", "in", "hop", "peers"])
+    focus = focus or rng.choice(["mixed", "mixed", "out", "in", "hop", "peers", "grow"])
     lines = ["open s0 %s" % kind]
     npipes, naio, nmsg, ttl = 0, 0, 0, 8
     if rng.random() < 0.6:
@@ -56,6 +56,32 @@ def gen_case(rng, kind=None, focus=None):
             h = rng.choice(hop_values(rng, ttl))
         return "%08x%s" % (h, body)
 
+    if focus == "grow":
+        # blocked senders, then the send buffer grows, then more sends: nobody may be overtaken
+        small = rng.choice([0, 0, 1, 2])
+        lines.append("setopt s0 send-buffer int %d" % small)
+        if rng.random() < 0.8:
+            lines.append("conn s0 %d" % PEER[kind]); npipes += 1
+        for _ in range(small + rng.randrange(2, 6)):
+            nmsg += 1
+            if rng.random() < 0.8 and naio < 50:
+                lines.append("send s0 a%d %s aa%04x" % (naio, send_hdr() if (v1 and raw) else "-", nmsg)); naio += 1
+            else:
+                lines.append("sendnb s0 %s aa%04x" % (send_hdr() if (v1 and raw) else "-", nmsg))
+        if rng.random() < 0.3 and npipes:
+            lines.append("sent p%d" % (npipes - 1))
+        lines.append("setopt s0 send-buffer int %d" % (small + rng.randrange(1, 4)))
+        for _ in range(rng.randrange(1, 4)):
+            nmsg += 1
+            if rng.random() < 0.5 and naio < 50:
+                lines.append("send s0 a%d %s aa%04x" % (naio, send_hdr() if (v1 and raw) else "-", nmsg)); naio += 1
+            else:
+                lines.append("sendnb s0 %s aa%04x" % (send_hdr() if (v1 and raw) else "-", nmsg))
+        if not npipes:
+            lines.append("conn s0 %d" % PEER[kind]); npipes += 1
+        for _ in range(rng.randrange(0, 6)):
+            lines.append("sent p%d" % (npipes - 1))
+        focus = "out"
     wt = {"mixed": (0.10, 0.30, 0.52, 0.70, 0.82), "out": (0.08, 0.45, 0.75, 0.80, 0.86), "in": (0.08, 0.12, 0.16, 0.55, 0.85),
           "hop": (0.08, 0.14, 0.20, 0.62, 0.86), "peers": (0.30, 0.42, 0.55, 0.68, 0.80)}[focus]
     for _ in range(rng.randrange(4, 60)):
@@ -153,6 +179,7 @@ def oracle(case, obs, raw):
     sbuf = 0
     rbuf = 0
     accepted, refused, pending_send = [], set(), {}
+    subs, sub_idx = [], {}        # bodies in the order their sends were submitted by the script (blocked sends count from submission)
     sent_hdr = {}                 # body -> header given by the application
     tx_seen, cur_tx = [], {}      # transmitted bodies in order; pipe -> pending body
     strict_out = True
@@ -195,6 +222,7 @@ def oracle(case, obs, raw):
         # ---- application side results
         if op == "sendnb":
             sent_hdr[t[3]] = t[2]
+            sub_idx[t[3]] = len(subs); subs.append(t[3])
             if o["rv"] == 0:
                 accepted.append(t[3])
             elif o["rv"] in (8, 7, 13):
@@ -204,6 +232,7 @@ def oracle(case, obs, raw):
         elif op == "send" and o["rv"] == 0:
             pending_send[int(t[2][1:])] = t[4]
             sent_hdr[t[4]] = t[3]
+            sub_idx[t[4]] = len(subs); subs.append(t[4])
         elif op == "setopt" and o["rv"] == 0:
             if t[2] == "ttl-max":
                 ttl = int(t[4])
@@ -264,15 +293,18 @@ def oracle(case, obs, raw):
                             return (k, "message %s transmitted with a malformed hop header %s" % (b, h))
                     elif h != sent_hdr[b]:
                         return (k, "pair0 changed the header of %s: %s" % (b, h))
-                    if tx_seen and accepted.index(b) < accepted.index(tx_seen[-1]):
-                        return (k, "message %s transmitted after %s although it was sent before it" % (b, tx_seen[-1]))
+                    # delivered in send order: the order in which the application submitted the sends
+                    # (a send that blocks counts from the moment it was submitted, not from its completion)
+                    if tx_seen and sub_idx[b] < sub_idx[tx_seen[-1]]:
+                        return (k, "message %s transmitted after %s although its send was submitted before it" % (b, tx_seen[-1]))
                     tx_seen.append(b)
                     if strict_out:
-                        # nothing accepted earlier may be missing, except one message per connection that
-                        # went down (handed to it and lost with it before it could be observed)
-                        gaps = [x for x in accepted[:accepted.index(b)] if x not in tx_seen]
+                        # nothing submitted earlier (and not refused / cancelled) may be missing -- whether its send
+                        # has completed or is still blocked --, except one message per connection that went down
+                        # (handed to it and lost with it before it could be observed)
+                        gaps = [x for x in subs[:sub_idx[b]] if x not in tx_seen and x not in refused]
                         if len(gaps) > closures:
-                            return (k, "messages skipped on the way out although the connection stayed up: %s" % gaps[:4])
+                            return (k, "messages overtaken or skipped on the way out although the connection stayed up: %s before %s" % (gaps[:4], b))
                 cur_tx[i] = b
         # ---- what the socket consumed from the peers (a message is judged with the TTL in force when it
         #      is taken from the connection, not when the peer sent it)
